@@ -131,6 +131,11 @@ def gen_plan(rng, tier, i):
                     "stop_abs": True, "step_ms": None if rng.random() < 0.5 else max(5000, int(rng.uniform(0.5, 2.5) * spec["step_s"]) * 1000)}
             if rng.random() < 0.12 and call["start_ms"] is not None and call["stop_ms"] is not None:
                 call["start_ms"], call["stop_ms"] = call["stop_ms"], call["start_ms"]  # backward over the ephemeris
+            if rng.random() < 0.3:
+                # explicit dates over the ephemeris (sorted, or a coarse scan)
+                n_ = rng.randint(4, 40)
+                ds = sorted({int(rng.uniform(0, dur) / 1000) * 1000 for _ in range(n_)})
+                call = {"call": "ephem_iter", "dates": ds}
         else:
             maxn = 25 if spec["kind"] == "keplernum" else 70
             step = max(10000, int(rng.uniform(0.006, 0.05) * rev / 1000) * 1000)
